@@ -1,5 +1,6 @@
 import Xp.Base.JsonIO
 import Xp.Model.C05
+import Xp.Drv.C01
 namespace Xp.C05
 open Lean (Json)
 open Xp.IOx
@@ -20,6 +21,7 @@ def claimHandler : Handler := fun scn =>
        ok, if ok then "" else "C05:claim-ready-without-xr-ready")
 
 def handler : Handler := fun scn =>
+  if has scn "mode" then Xp.C01.handler scn else   -- an XR world: the reconcile model of C01
   if str scn "kind" == "claim" then claimHandler scn else
   let old : St := ⟨(arr scn "old").map condOf, []⟩
   let composed := (arr scn "composed").map fun j => (⟨str j "name", bool j "synced", bool j "ready"⟩ : Res)
